@@ -33,6 +33,37 @@ func buildC16(c *core.Ctx, idx int) []c16Op {
 		}
 		opsl = append(opsl, c16Op{stmt: s})
 	}
+	if idx%3 == 2 {
+		// wide catalog: the catalog itself is larger than the small cache, so
+		// every statement's catalog scan evicts what the statement looked at
+		// before
+		nt = r.Range(40, 60)
+		h.MaxCols = 6
+		for i := 0; i < nt; i++ {
+			push(h.CreateTable())
+		}
+		for step := 0; step < 250; step++ {
+			t := h.DB.Tables[r.Intn(len(h.DB.Tables))]
+			switch x := r.Intn(10); {
+			case x < 6 || len(t.Rows) < 3:
+				s := &proto.Stmt{Kind: "insert", Table: t.Name}
+				for i, n := 0, r.Range(1, 4); i < n; i++ {
+					s.Rows = append(s.Rows, h.NewRow(t, r.Intn(3)))
+				}
+				push(s)
+			case x < 8:
+				u := h.Update(t)
+				u.Where = model.Cmp("=", model.ColOp("k"), model.LitOp(proto.Int(int64(r.Intn(len(t.Rows)+1)))))
+				push(u)
+			default:
+				push(&proto.Stmt{Kind: "delete", Table: t.Name, Where: model.Cmp("=", model.ColOp("k"), model.LitOp(proto.Int(int64(r.Intn(len(t.Rows)+1)))))})
+			}
+			if r.Chance(1, 3) {
+				opsl = append(opsl, c16Op{query: "SELECT * FROM " + h.DB.Tables[r.Intn(len(h.DB.Tables))].Name})
+			}
+		}
+		return opsl
+	}
 	for i := 0; i < nt; i++ {
 		push(h.CreateTable())
 	}
@@ -141,7 +172,7 @@ func checkC16(c *core.Ctx) []core.Floor {
 	if !core.Quick(c) {
 		minReload = 1000000
 	}
-	return []core.Floor{{Key: "small_cache_runs", Min: int64(n)}, {Key: "pages_reloaded_from_file", Min: minReload}, {Key: "statements_compared", Min: 1000}, {Key: "runs_db_at_least_4x_cache", Min: int64(n / 2)}}
+	return []core.Floor{{Key: "small_cache_runs", Min: int64(n)}, {Key: "pages_reloaded_from_file", Min: minReload}, {Key: "statements_compared", Min: 1000}, {Key: "runs_db_at_least_4x_cache", Min: int64(n / 2)}, {Key: "wide_catalog_runs", Min: 4}}
 }
 
 func runC16(c *core.Ctx, drv string, idx int) {
@@ -261,6 +292,9 @@ func runC16(c *core.Ctx, drv string, idx int) {
 		}
 		if pages >= 20*cp {
 			c.Count("runs_db_at_least_20x_cache", 1)
+		}
+		if idx%3 == 2 {
+			c.Count("wide_catalog_runs", 1)
 		}
 		if cp == base {
 			c.Max("largest_dirty_set", maxDirty)
